@@ -57,6 +57,7 @@ namespace R
       int32_t pos;
       uint8_t amode;
       int32_t b = 0;
+      int16_t fam = 0;  // action family in effect for this rule
    };
 
    // position oracle (C06 formula) over the bytes of the outermost input
@@ -436,7 +437,7 @@ namespace R
          stack.push_back( { I, pos, end } );
          const size_t mark = trail.size();
          const size_t sw_mark = sw_acts.size();
-         trail.push_back( { 0, int16_t( I ), pos, uint8_t( in.am ) } );
+         trail.push_back( { 0, int16_t( I ), pos, uint8_t( in.am ), 0, int16_t( in.fam ) } );
          ctl_log.push_back( { in.ctl, I, pos } );
          ++cov[ I ][ 0 ];
          touch( pos );
@@ -450,7 +451,7 @@ namespace R
          if( at.kind == AK_LIMIT_DEPTH ) --depth;
          if( r.k == OK ) {
             touch( r.pos );
-            trail.push_back( { 1, int16_t( I ), r.pos, uint8_t( in.am ) } );
+            trail.push_back( { 1, int16_t( I ), r.pos, uint8_t( in.am ), 0, int16_t( in.fam ) } );
             if( in.fam < 8 ) {
                const int ak = in.am ? act_kind_of( in.fam, I ) : 0;
                if( ak != 0 ) {
@@ -850,6 +851,16 @@ namespace R
                }
                if( d == 2 ) return { AX, 0, id, pos, pos, -1 };
                return ok( pos );
+            }
+            case ACTION_SW: {  // action< act_odd, R >: family 4 (actions on odd rules only) inside R, the old family again afterwards
+               Ctx in = am;
+               in.fam = 4;
+               return ev( a, pos, end, in );
+            }
+            case CONTROL_SW: {
+               Ctx in = am;
+               in.ctl = 2;
+               return ev( a, pos, end, in );
             }
             case ENABLE: return ev( a, pos, end, am.with_am( 1 ) );
             case STATE: {  // state< LogState, R >: new state for R; success( in, outer... ) iff R matched, whatever the apply mode
